@@ -15,6 +15,8 @@ import (
 const (
 	SBool = "Bool"
 	SBV8  = "BV8"
+	SBV16 = "BV16"
+	SBV32 = "BV32"
 	SBV64 = "BV64"
 	SInt  = "Int"
 	SReal = "Real"
@@ -32,6 +34,10 @@ func sortSMT(s string) string {
 	switch s {
 	case SBV8:
 		return "(_ BitVec 8)"
+	case SBV16:
+		return "(_ BitVec 16)"
+	case SBV32:
+		return "(_ BitVec 32)"
 	case SBV64:
 		return "(_ BitVec 64)"
 	case SF64:
@@ -116,11 +122,7 @@ func BVLit(v uint64, w int) *Term {
 	if w < 64 {
 		iv.And(iv, new(big.Int).SetUint64((1<<uint(w))-1))
 	}
-	s := SBV8
-	if w == 64 {
-		s = SBV64
-	}
-	return intern(&Term{Op: "bv", Sort: s, IV: iv, W: w})
+	return intern(&Term{Op: "bv", Sort: bvSort(w), IV: iv, W: w})
 }
 
 var (
@@ -447,11 +449,17 @@ func IRem(a, b *Term) *Term {
 // ---------- bit-vectors ----------
 
 func bvSort(w int) string {
-	if w == 64 {
+	switch w {
+	case 16:
+		return SBV16
+	case 32:
+		return SBV32
+	case 64:
 		return SBV64
 	}
 	return SBV8
 }
+func isBVSort(s string) bool { return s == SBV8 || s == SBV16 || s == SBV32 || s == SBV64 }
 func mask(w int) *big.Int {
 	m := new(big.Int).Lsh(big.NewInt(1), uint(w))
 	return m.Sub(m, big.NewInt(1))
@@ -461,7 +469,12 @@ func bvlit(v *big.Int, w int) *Term {
 	return intern(&Term{Op: "bv", Sort: bvSort(w), IV: x, W: w})
 }
 func widthOf(t *Term) int {
-	if t.Sort == SBV64 {
+	switch t.Sort {
+	case SBV16:
+		return 16
+	case SBV32:
+		return 32
+	case SBV64:
 		return 64
 	}
 	return 8
@@ -666,7 +679,7 @@ func fpLitSMT(f float64) string {
 
 func (t *Term) leafSMT() (string, bool) {
 	switch t.Op {
-	case "sym", "raw":
+	case "sym", "raw", "bvar":
 		return t.Name, true
 	case "int":
 		if t.IV.Sign() < 0 {
@@ -674,10 +687,7 @@ func (t *Term) leafSMT() (string, bool) {
 		}
 		return t.IV.String(), true
 	case "bv":
-		if t.W == 8 {
-			return fmt.Sprintf("#x%02x", t.IV.Uint64()), true
-		}
-		return fmt.Sprintf("#x%016x", t.IV.Uint64()), true
+		return fmt.Sprintf("#x%0*x", t.W/4, t.IV.Uint64()), true
 	case "bool":
 		if t.B {
 			return "true", true
@@ -695,6 +705,7 @@ type Printer struct {
 	names map[*Term]string
 	defs  []string
 	syms  map[string]string // declared symbols name->sort
+	bv    map[*Term]bool
 	order []string
 }
 
@@ -752,13 +763,30 @@ func (p *Printer) Emit(t *Term) string {
 	}
 	sb.WriteByte(')')
 	s := sb.String()
-	if p.refs[t] > 1 && t.Sort != SUnk && len(s) > 24 {
+	if p.refs[t] > 1 && t.Sort != SUnk && len(s) > 24 && !p.hasBVar(t) {
 		n := fmt.Sprintf("n!%d", t.id)
 		p.defs = append(p.defs, fmt.Sprintf("(define-fun %s () %s %s)", n, sortSMT(t.Sort), s))
 		p.names[t] = n
 		return n
 	}
 	return s
+}
+
+func (p *Printer) hasBVar(t *Term) bool {
+	if p.bv == nil {
+		p.bv = map[*Term]bool{}
+	}
+	if v, ok := p.bv[t]; ok {
+		return v
+	}
+	r := t.Op == "bvar"
+	for _, a := range t.Args {
+		if p.hasBVar(a) {
+			r = true
+		}
+	}
+	p.bv[t] = r
+	return r
 }
 
 // Decls returns declare-const lines for all symbols met so far (stable order), excluding 'skip'.
